@@ -311,7 +311,7 @@ func (m *Monitors) checkBirth(p *vh.PRow, prev, next *vh.Snapshot, cmds []cmdRes
 			if m.routerFailed[p.Id] || m.s.cfg.RouterOff {
 				m.violate("C08", "birth:router-failure:routed-promise-without-task", fmt.Sprintf("router failed for %s; the routed promise (tags %s) was stored without its invocation task", p.Id, p.Tags))
 			} else {
-				m.violate("C08", "birth:routed-promise-without-task", fmt.Sprintf("promise %s routes (tags %s) but no task %s was created in the same commit", p.Id, p.Tags, tid))
+				m.violate("C08,C06", "birth:routed-promise-without-task", fmt.Sprintf("promise %s routes (tags %s) but no task %s was created in the same commit", p.Id, p.Tags, tid))
 			}
 			return
 		}
@@ -344,7 +344,7 @@ func (m *Monitors) checkCallbacks(prev *vh.Snapshot, bi *BatchInfo, next *vh.Sna
 	for id, c := range next.C {
 		p := next.P[c.PromiseId]
 		if p == nil || p.State != 1 {
-			m.violate("C05", "row:registration-on-nonpending", fmt.Sprintf("callback %s exists but its promise %s is not pending (%v)", id, c.PromiseId, p))
+			m.violate("C05,C06", "row:registration-on-nonpending", fmt.Sprintf("callback %s exists but its promise %s is not pending (%v)", id, c.PromiseId, p))
 		}
 		if c0 := prev.C[id]; c0 != nil && c0.String() != c.String() {
 			m.violate("C05", "row:registration-changed", fmt.Sprintf("callback row changed: %s -> %s", c0, c))
@@ -389,11 +389,11 @@ func (m *Monitors) checkCallbacks(prev *vh.Snapshot, bi *BatchInfo, next *vh.Sna
 			m.hit("registration.converted")
 			expected[e.id] = true
 			if next.C[e.id] != nil {
-				m.violate("C05", "row:registration-outlives-promise", fmt.Sprintf("promise %s completed in batch #%d but callback %s is still there", pid, bi.Index, e.id))
+				m.violate("C05,C06", "row:registration-outlives-promise", fmt.Sprintf("promise %s completed in batch #%d but callback %s is still there", pid, bi.Index, e.id))
 			}
 			t1 := next.T[e.id]
 			if t1 == nil {
-				m.violate("C05", "row:registration-not-converted", fmt.Sprintf("promise %s completed in batch #%d but registration %s produced no task", pid, bi.Index, e.id))
+				m.violate("C05,C06", "row:registration-not-converted", fmt.Sprintf("promise %s completed in batch #%d but registration %s produced no task", pid, bi.Index, e.id))
 				continue
 			}
 			if prev.T[e.id] != nil {
@@ -601,7 +601,7 @@ func (m *Monitors) checkTasks(prev *vh.Snapshot, bi *BatchInfo, next *vh.Snapsho
 		case strings.HasPrefix(id, "__invoke:"):
 			pid := strings.TrimPrefix(id, "__invoke:")
 			if next.P[pid] == nil || prev.P[pid] != nil {
-				m.violate("C08", "birth:task-without-new-promise", fmt.Sprintf("task %s appeared in batch #%d but promise %s was not created there", id, bi.Index, pid))
+				m.violate("C08,C06", "birth:task-without-new-promise", fmt.Sprintf("task %s appeared in batch #%d but promise %s was not created there", id, bi.Index, pid))
 			}
 			if t1.State == 4 {
 				hb := false
@@ -635,7 +635,7 @@ func (m *Monitors) checkTasks(prev *vh.Snapshot, bi *BatchInfo, next *vh.Snapsho
 			}
 			m.hit("completion.tasks-finished")
 			if t1.State != 8 && t1.State != 16 {
-				m.violate("C08", "row:task-outlives-promise", fmt.Sprintf("promise %s completed in batch #%d but its task %s is still active", pid, bi.Index, t1))
+				m.violate("C08,C06", "row:task-outlives-promise", fmt.Sprintf("promise %s completed in batch #%d but its task %s is still active", pid, bi.Index, t1))
 			}
 		}
 	}
@@ -865,7 +865,7 @@ func (m *Monitors) checkSchedules(prev *vh.Snapshot, bi *BatchInfo, next *vh.Sna
 		}
 		p1 := next.P[pid]
 		if p1 == nil {
-			m.violate("C10", "row:occurrence-without-promise", fmt.Sprintf("schedule %s advanced past %d but promise %q does not exist", id, occ, pid))
+			m.violate("C10,C06", "row:occurrence-without-promise", fmt.Sprintf("schedule %s advanced past %d but promise %q does not exist", id, occ, pid))
 			continue
 		}
 		createdHere := false
